@@ -105,10 +105,11 @@ O('antijoin', 2, lambda e, s, kw: e.antijoin(s[0], s[1], key='a', **kw),
   key='a', rect=True)
 O('lookupjoin', 2, lambda e, s, kw: e.lookupjoin(s[0], s[1], key='a', **kw),
   key='a', squares=True)
-O('unjoin', 1, lambda e, s, kw: e.unjoin(s[0], 'b', **kw), presorted=False,
+# (without a key, "sorted by the key" means sorted by the value field)
+O('unjoin', 1, lambda e, s, kw: e.unjoin(s[0], 'b', **kw), key='b',
   multi=True, rect=True)
 O('unjoin-key', 1, lambda e, s, kw: e.unjoin(s[0], 'b', key='a', **kw),
-  presorted=False, multi=True, rect=True)
+  key='a', multi=True, rect=True)
 O('complement', 2, lambda e, s, kw: e.complement(s[0], s[1], **kw),
   key=None, rect=True)
 O('complement-strict', 2, lambda e, s, kw: e.complement(s[0], s[1],
